@@ -429,8 +429,60 @@ def run_input_job(job):
     return run_input(*job)
 
 
-def run_input(exe, scratch, idx, text, task):
-    """all commands on one input; returns a list of (cmd_id, argv, rc, crashed, class, site, stderr_tail)"""
+# ------------------------------------------------------------------ accepted texts (printed generated trees)
+
+# harness op -> (share of the accepted stream, the commands that read that kind of text: prefixes of command ids)
+ACCEPTED_KINDS = {
+    "gen_text_theory": (52, ("simplify/", "translate/gamma", "translate/completion", "parse/theory", "stdin/simplify")),
+    "gen_text_deep": (4, ("simplify/classic/fixpoint", "simplify/classic/recursive", "simplify/ht/fixpoint", "stdin/simplify")),
+    "gen_text_program": (28, ("parse/program", "translate/mu", "translate/natural", "translate/tau-star", "analyze/", "verify/strong/",
+                              "verify/external/spec-program", "verify/external/program", "stdin/parse/program", "stdin/translate/")),
+    "gen_text_spec": (6, ("parse/specification", "verify/external/specification")),
+    "gen_text_outline": (6, ("parse/specification", "verify/external/proof-outline")),
+    "gen_text_ug": (4, ("parse/user-guide", "verify/external/user-guide")),
+}
+
+
+def sx_unstring(s):
+    """inverse of the harness's string writer on one quoted string -> bytes"""
+    assert s[0] == '"' and s[-1] == '"', s[:40]
+    out = bytearray()
+    i = 1
+    while i < len(s) - 1:
+        c = s[i]
+        if c == "\\":
+            if s[i + 1] == "x":
+                out.append(int(s[i + 2:i + 4], 16))
+                i += 4
+            else:
+                out.append(ord(s[i + 1]))
+                i += 2
+        else:
+            out += c.encode("utf8")
+            i += 1
+    return bytes(out)
+
+
+def accepted_texts(seed, total):
+    """[(text bytes, only, origin)]: printed random trees of the framework's generators (harness ops
+    gen_text_*), i.e. texts anthem ACCEPTS, each with the commands that read that kind of text"""
+    out = []
+    weight = sum(w for w, _ in ACCEPTED_KINDS.values())
+    for op, (w, only) in ACCEPTED_KINDS.items():
+        n = max(1, total * w // weight)
+        seen = set()
+        for ln in vlib.generate(op, seed, n):
+            text = sx_unstring(ln.split("\t", 1)[1])
+            if text in seen or len(text) > 6000:
+                continue
+            seen.add(text)
+            out.append((text, only, "accepted:" + op[len("gen_text_"):]))
+    return out
+
+
+def run_input(exe, scratch, idx, text, task, only=None):
+    """all commands on one input (with `only`: the commands whose id starts with one of these prefixes);
+    returns a list of (cmd_id, argv, rc, crashed, class, site, stderr_tail)"""
     import shutil
     d = os.path.join(scratch, f"i{idx}")
     os.makedirs(os.path.join(d, "out"))
@@ -444,6 +496,8 @@ def run_input(exe, scratch, idx, text, task):
     todo = [(cid, build(os.path.join(d, "in." + ext), d), None) for cid, ext, build in commands()]
     for cid, argv in stdin_commands():
         todo.append((cid, argv, text))
+    if only is not None:
+        todo = [t for t in todo if t[0].startswith(tuple(only))]
     if task:
         eq, flags, files, which = task
         repl = os.path.join(d, "in." + files[which].rsplit(".", 1)[1])
